@@ -75,19 +75,53 @@ package scanner
 //@   invariant invalid != nil ==> *invalid == old(*invalid)
 //@   decreases len(s.src) - s.offset
 //@
+//@ # invalidSep against its specification (C16: the '_' error is reported at the same offset as go/scanner, whose
+//@ # invalidSep carries the same clauses): the previous character's class decides; the result is the first '_' not
+//@ # preceded by a digit, or the '_' followed by a non-digit (or by the end), and -1 when there is none. The clauses
+//@ # determine the result uniquely.
+//@ pred sepPre(x string) := len(x) >= 2 && x[0] == '0' && (x[1] == 'x' || x[1] == 'X' || x[1] == 'o' || x[1] == 'O' || x[1] == 'b' || x[1] == 'B')
+//@ pred sepHexLit(x string) := len(x) >= 2 && x[0] == '0' && (x[1] == 'x' || x[1] == 'X')
+//@ spec sepStart(x string) int := sepPre(x) ? 2 : 0
+//@ pred sepDigit(x string, c int) := ('0' <= c && c <= '9') || (sepHexLit(x) && (('a' <= c && c <= 'f') || ('A' <= c && c <= 'F')))
+//@ spec sepCls(x string, c int) int := c == '_' ? '_' : (sepDigit(x, c) ? '0' : '.')
+//@ spec sepPrev(x string, i int) int := i == sepStart(x) ? (sepPre(x) ? '0' : '.') : sepCls(x, x[i-1])
+//@ pred sepBad(x string, i int) := (x[i] == '_' && sepPrev(x, i) != '0') || (sepCls(x, x[i]) == '.' && sepPrev(x, i) == '_')
 //@ func invalidSep
 //@   pure
 //@   ensures -1 <= result && result < len(x)
+//@   ensures [sep-none] result == -1 ==> (forall j in sepStart(x)..len(x) :: !sepBad(x, j)) && (len(x) == sepStart(x) || x[len(x)-1] != '_')
+//@   ensures [sep-first] result >= 0 ==> result >= sepStart(x) && x[result] == '_' && (forall j in sepStart(x)..result :: !sepBad(x, j)) &&
+//@           (sepPrev(x, result) != '0' || result == len(x)-1 || sepCls(x, x[result+1]) == '.')
 //@ loop invalidSep#1
-//@   invariant 0 <= i && i <= len(x) && (d == '_' ==> i >= 1)
+//@   invariant sepStart(x) <= i && i <= len(x) && (d == '_' ==> i >= 1)
+//@   invariant [sep-state] d == sepPrev(x, i) && (x1 == 'x' ==> sepHexLit(x)) && (sepHexLit(x) ==> x1 == 'x')
+//@   invariant [sep-prefix] forall j in sepStart(x)..i :: !sepBad(x, j)
 //@   decreases len(x) - i
 //@
+//@ # scanEscape against its specification (C16; go/scanner's scanEscape carries the same clauses): which escapes are
+//@ # accepted, how many characters each consumes and where scanning stops on a bad digit. The numeric range check
+//@ # (x > max, surrogates) is not specified: a failure with all digits consumed is allowed.
+//@ pred escSimple(c int, quote int) := c == 'a' || c == 'b' || c == 'f' || c == 'n' || c == 'r' || c == 't' || c == 'v' || c == '\\' || c == quote
+//@ spec escN(c int) int := ('0' <= c && c <= '7') ? 3 : (c == 'x' ? 2 : (c == 'u' ? 4 : (c == 'U' ? 8 : 0)))
+//@ spec escBase(c int) int := ('0' <= c && c <= '7') ? 8 : 16
+//@ spec escSkip(c int) int := ('0' <= c && c <= '7') ? 0 : 1
+//@ pred escDigitOK(b int, base int) := base == 8 ? ('0' <= b && b <= '7') : (('0' <= b && b <= '9') || ('a' <= b && b <= 'f') || ('A' <= b && b <= 'F'))
 //@ func (*Scanner).scanEscape
 //@   requires inv(s)
 //@   assigns s.ch, s.offset, s.rdOffset, s.lineOffset, s.ErrorCount
 //@   ensures inv(s) && s.offset >= old(s.offset)
+//@   ensures [esc-simple] escSimple(old(s.ch), quote) ==> result && s.offset == old(s.rdOffset)
+//@   ensures [esc-unknown] !escSimple(old(s.ch), quote) && escN(old(s.ch)) == 0 ==> !result && s.offset == old(s.offset)
+//@   ensures [esc-digits] !escSimple(old(s.ch), quote) && escN(old(s.ch)) > 0 ==>
+//@           s.offset <= old(s.offset) + escSkip(old(s.ch)) + escN(old(s.ch)) &&
+//@           (forall k in old(s.offset) + escSkip(old(s.ch))..s.offset :: escDigitOK(s.src[k], escBase(old(s.ch)))) &&
+//@           (result ==> s.offset == old(s.offset) + escSkip(old(s.ch)) + escN(old(s.ch))) &&
+//@           (s.offset < old(s.offset) + escSkip(old(s.ch)) + escN(old(s.ch)) ==> !result && !escDigitOK(s.ch, escBase(old(s.ch))))
 //@ loop (*Scanner).scanEscape#1
 //@   invariant inv(s) && s.offset >= old(s.offset) && n >= 0
+//@   invariant [esc-state] !escSimple(old(s.ch), quote) && escN(old(s.ch)) > 0 && base == escBase(old(s.ch)) &&
+//@           s.offset == old(s.offset) + escSkip(old(s.ch)) + escN(old(s.ch)) - n
+//@   invariant [esc-prefix] forall k in old(s.offset) + escSkip(old(s.ch))..s.offset :: escDigitOK(s.src[k], escBase(old(s.ch)))
 //@   decreases n
 //@
 //@ func (*Scanner).scanRune
